@@ -37,7 +37,7 @@ def build_workspace(repo, wd, cfg):
     members = cfg.get('members', ['utils'])
     for m in members:
         shutil.copytree(os.path.join(repo, m), os.path.join(ws, m),
-                        ignore=shutil.ignore_patterns('target', 'benches', 'tests', '*.arkzkey'))
+                        ignore=shutil.ignore_patterns('target', 'benches', 'tests', '*.arkzkey'), copy_function=shutil.copy)  # fresh mtimes (shared target dir)
         # benches are declared in Cargo.toml: strip [[bench]] sections so cargo does not look for them
         ct = os.path.join(ws, m, 'Cargo.toml')
         s = open(ct).read()
